@@ -57,13 +57,15 @@ type World struct {
 	inflight map[int]*MCommit
 	nextTxn  int
 
-	snaps    []*Snap
-	watches  []*Watch
-	iters    []*IterCtx
-	inits    []*initReg
-	allTxns  []*WTxn
-	allIters []*IterCtx
-	curFloor *floor
+	snaps     []*Snap
+	watches   []*Watch
+	iters     []*IterCtx
+	inits     []*initReg
+	lockTable map[*simcore.SimLock]int // simulated table lock -> table index, learnt from harness transactions
+	everDead  map[int]bool             // tables that have ever retained a deleted object
+	allTxns   []*WTxn
+	allIters  []*IterCtx
+	curFloor  *floor
 
 	gcInterval time.Duration
 
@@ -136,7 +138,7 @@ var leakedIters []statedb.ChangeIterator[*Obj]
 func Run(t *testing.T, prop, tier string, c *simcore.Choices, full bool) *simcore.RunResult {
 	res := &simcore.RunResult{}
 	w := &World{t: t, prop: prop, tier: tier, C: c,
-		inflight: map[int]*MCommit{}, probes: map[string]int{}, faults: map[string]int{}, states: map[uint64]struct{}{}}
+		inflight: map[int]*MCommit{}, lockTable: map[*simcore.SimLock]int{}, everDead: map[int]bool{}, probes: map[string]int{}, faults: map[string]int{}, states: map[uint64]struct{}{}}
 	w.P = profileFor(prop, tier)
 	leaked, perr := simcore.InBubble(t, func() {
 		w.run(full)
@@ -425,7 +427,47 @@ func (m *simMetrics) Revision(tableName string, revision statedb.Revision) {
 // checkIndependence: a blocked task waits only for a transaction that shares a
 // table with its own request (or for the short root section, whose holder never
 // waits itself); readers never park at a synchronisation point (C10).
+// checkCollectorLocks: graveyard collection may only take the locks of tables that have retained
+// deleted objects; otherwise writers of an unrelated table are delayed by the collection of others
+// (and by whoever holds a table the collector waits for).
+func (w *World) checkCollectorLocks() {
+	if w.db == nil || len(w.tables) == 0 {
+		return
+	}
+	rtxn := w.db.ReadTxn()
+	n := len(w.db.GetTables(rtxn))
+	for ti, tc := range w.tables {
+		if ti < n && !w.everDead[ti] && statedb.VerifGraveyardLen(rtxn, tc.T) > 0 {
+			w.everDead[ti] = true
+		}
+	}
+	for _, t := range w.S.Tasks() {
+		if !t.Adopted || !strings.Contains(t.Name, "@gc.") {
+			continue
+		}
+		var locks []*simcore.SimLock
+		if l := t.WaitsFor(); l != nil && t.State() == simcore.StParked {
+			locks = append(locks, l)
+		}
+		for _, l := range w.S.Locks() {
+			if l.Owner == t {
+				locks = append(locks, l)
+			}
+		}
+		for _, l := range locks {
+			if ti, ok := w.lockTable[l]; ok && !w.everDead[ti] {
+				w.violate("C10", "collector-locks-clean-table", "the graveyard collector takes the lock of table %s, which never retained a deleted object: its writers are delayed by the collection of other tables", w.tables[ti].M.Name)
+				return
+			}
+		}
+	}
+}
+
 func (w *World) checkIndependence(ran *simcore.Task) {
+	w.checkCollectorLocks()
+	if w.S.Failed() {
+		return
+	}
 	if tx := tctx(ran); tx != nil && (tx.role == "reader" || tx.role == "watcher" || tx.role == "prober") {
 		if ran.State() == simcore.StParked && !strings.HasPrefix(ran.Point(), "h:") {
 			w.violate("C10", "reader-waits", "%s, which only reads, is parked at synchronisation point %s", ran.Name, ran.Point())
